@@ -1111,8 +1111,72 @@ class Interp:
             d[kk] = self.eval(v, fr)
         return SDict(d)
 
+    _SIMPLE_BIN = (ast.Add, ast.Sub, ast.Mult, ast.BitAnd, ast.BitOr, ast.BitXor)
+
+    def _simple_operand(self, e):
+        """side-effect free and cheap: names, attribute chains, constants, + - * & | ^, unary - ~, len(simple)"""
+        if isinstance(e, (ast.Name, ast.Constant)):
+            return True
+        if isinstance(e, ast.Attribute):
+            return self._simple_operand(e.value)
+        if isinstance(e, ast.BinOp):
+            return isinstance(e.op, self._SIMPLE_BIN) and self._simple_operand(e.left) and self._simple_operand(e.right)
+        if isinstance(e, ast.UnaryOp):
+            return isinstance(e.op, (ast.USub, ast.Invert, ast.UAdd)) and self._simple_operand(e.operand)
+        if isinstance(e, ast.Call):
+            return (isinstance(e.func, ast.Name) and e.func.id == "len" and len(e.args) == 1 and not e.keywords
+                    and self._simple_operand(e.args[0]))
+        return False
+
+    def _pure_bool(self, e):
+        """syntactically pure boolean expression: comparisons of simple operands combined by and / or / not"""
+        memo = self.__dict__.setdefault("_pure_memo", {})
+        k = id(e)
+        if k not in memo:
+            if isinstance(e, ast.Compare):
+                r = (all(isinstance(o, (ast.Eq, ast.NotEq, ast.Lt, ast.LtE, ast.Gt, ast.GtE, ast.Is, ast.IsNot)) for o in e.ops)
+                     and self._simple_operand(e.left) and all(self._simple_operand(c) for c in e.comparators))
+            elif isinstance(e, ast.BoolOp):
+                r = all(self._pure_bool(v) for v in e.values)
+            elif isinstance(e, ast.UnaryOp) and isinstance(e.op, ast.Not):
+                r = self._pure_bool(e.operand)
+            else:
+                r = False
+            memo[k] = (r, e)        # keep e alive so that id() stays unique
+        return memo[k][0]
+
+    def _merged_bool(self, node, fr):
+        """a pure `a and b` / `a or b` whose operands all evaluate to booleans is one term instead of a fork per
+        operand (same value on every path; the operands have no effects).  -> SBool | bool | None (not applicable)"""
+        isand = isinstance(node.op, ast.And)
+        mark = (len(self.ctx.pc), len(self.ctx.exact), self.ctx.pos, len(self.ctx.decisions))
+        vals = []
+        try:
+            for e in node.values:
+                v = self.eval(e, fr)
+                if not isinstance(v, (bool, SBool)):
+                    return None
+                if isinstance(v, bool):
+                    if v != isand:
+                        # a concrete operand decides; operands before it were symbolic booleans without effects
+                        return v if not vals else (And(vals + [False]) if isand else Or(vals + [True]))
+                    continue
+                vals.append(v)
+        except (PyRaise, Unsupported):
+            return None
+        finally:
+            if (len(self.ctx.pc), len(self.ctx.exact), self.ctx.pos, len(self.ctx.decisions))[0::2] != mark[0::2]:
+                raise Unsupported("pure boolean expression changed the path state")
+        if not vals:
+            return isand
+        return And(vals) if isand else Or(vals)
+
     def e_BoolOp(self, node, fr):
         isand = isinstance(node.op, ast.And)
+        if self.ctx.mode == "sym" and self._pure_bool(node):
+            r = self._merged_bool(node, fr)
+            if r is not None:
+                return r
         v = None
         for e in node.values:
             v = self.eval(e, fr)
@@ -1135,7 +1199,21 @@ class Interp:
         self.ctx.raise_builtin(TypeError, "bad operand type for unary %s" % op)
 
     def e_IfExp(self, node, fr):
-        if truth(self.eval(node.test, fr)):
+        c = self.eval(node.test, fr)
+        if (self.ctx.mode == "sym" and isinstance(c, SBool) and self._simple_operand(node.body)
+                and self._simple_operand(node.orelse)):
+            # `a if c else b` over effect-free integer operands: one ite term instead of a fork
+            try:
+                a = self.eval(node.body, fr)
+                b = self.eval(node.orelse, fr)
+                if all(isinstance(x, (int, SInt, SBool)) and not isinstance(x, V.STime) for x in (a, b)):
+                    if isinstance(a, (bool, SBool)) != isinstance(b, (bool, SBool)):
+                        a = mk_int(bv(a)) if isinstance(a, (bool, SBool)) else a
+                        b = mk_int(bv(b)) if isinstance(b, (bool, SBool)) else b
+                    return ite(c, a, b)
+            except (PyRaise, Unsupported):
+                pass
+        if truth(c):
             return self.eval(node.body, fr)
         return self.eval(node.orelse, fr)
 
